@@ -54,6 +54,16 @@ def check(ctx, adt=T.ANIM_ADT, F=None, only_r1=False):
     # after the end the frame is still found by the search for the terminal position (0% for reversing timelines), not
     # assumed to be the last one
     c01.rule_search(ctx, F, "R3")
+    # "once true it stays true": the time spent in the state only grows - advance adds the elapsed time, nothing else
+    # writes it (C06/R1)
+    from rules import c06
+    before = len(ctx.obs)
+    nn = len(ctx.notes)
+    c06.check(ctx)
+    del ctx.notes[nn:]
+    for o in ctx.obs[before:]:
+        o["key"] = o["key"].replace("C07/%s/" % o["rule"], "C07/R4/%s/" % o["rule"].lower(), 1)
+        o["rule"] = "R4"
     ctx.notes.append("R3 (once ended, values rest) follows from C06/R1 (the accumulator only grows), C02/R3 (Ended "
                      "maps to a constant position) and C09 (update is a function of time)")
     ctx.notes.append("not decided: float behaviour exactly at the end instant of multi-cycle timelines")
